@@ -6,7 +6,7 @@ use irrc::{Connection, IrrClient, Query, ResponseItem};
 
 use rpsl::{
     expr::{
-        eval::{Evaluate, Evaluator, Resolver},
+        eval::{Evaluate, EvaluationError, Evaluator, Resolver},
         MpFilterExpr,
     },
     names::{AsSet, AutNum, FilterSet, RouteSet},
@@ -97,16 +97,26 @@ impl<'a> Evaluator<'a> for RpslEvaluator {
     }
 
     fn sink_error(&mut self, err: &(dyn std::error::Error + Send + Sync + 'static)) -> bool {
+        // An AS without route objects in one of the address families is not an error ...
         if let Some(irrc::Error::ResponseErr(
             Query::Ipv4Routes(_) | Query::Ipv6Routes(_),
             irrc::error::Response::KeyNotFound,
         )) = err.downcast_ref()
         {
             tracing::debug!("{err:#}");
-        } else {
-            tracing::warn!("{err:#}");
+            return true;
         }
-        true
+        // ... and neither is a range operator that does not apply to one of the prefixes of the
+        // set it is applied to: that prefix drops out of the result.
+        if err.is::<EvaluationError>() {
+            tracing::warn!("{err:#}");
+            return true;
+        }
+        // Anything else (an error answer from the IRR, a set it does not know, a lost connection)
+        // means that prefix data could not be obtained. The evaluation has to fail: a set that
+        // is smaller for lack of data must not be mistaken for the real one.
+        tracing::warn!("{err:#}");
+        false
     }
 }
 
